@@ -1244,6 +1244,12 @@ func (t *FnTrans) Translate() {
 		v := t.havocVal(fv.Type(), "fv."+fv.Name())
 		t.vals[fv] = v
 		t.params[fv.Name()] = v
+		if t.con != nil && t.con.PrivateCaptures && v.K == VScalar {
+			if _, isPtr := fv.Type().Underlying().(*types.Pointer); isPtr {
+				t.privateRefs[v.S] = true
+				t.note("captured variable %s is assumed to be written only by this closure while it runs (privatecaptures)", fv.Name())
+			}
+		}
 	}
 	t.entrySt[fn.Blocks[0]] = entry.clone() // the entry block mutates its own copy; entry0 stays the pre-state
 	t.reach[fn.Blocks[0]] = "true"
